@@ -1,5 +1,5 @@
-(* Corr/C29.v — a C29 correspondence case: the writer operations (commit / compaction that had something to
-   compact) run before the backup started and between the page-file copy and the log copy, and what the real
+(* Corr/C29.v — a C29 correspondence case: the writer operations (commit / label creation / compaction that had something to
+   compact / close-time log rewrite) run before the backup started and between the page-file copy and the log copy, and what the real
    restored database did: does it open, how many of the committed transactions are visible. *)
 From NDB Require Export Store.Backup Corr.Common.
 Open Scope N_scope.
@@ -17,5 +17,5 @@ Definition ok (c : case) : bool :=
   let steps := s1 ++ s2 in
   match content (restore (backup steps (length s1) (length steps))) with
   | None => negb (impl_opens c)
-  | Some l => impl_opens c && (N.of_nat (length l) =? impl_visible c)
+  | Some (l, _, _) => impl_opens c && (N.of_nat (length l) =? impl_visible c)
   end.
